@@ -257,3 +257,22 @@ M("C13-f2f-hidden-bit", "C13", "R13.3", ("utils.py", "            num = (1 - 2 *
 M("C13-f2f-sign", "C13", "R13.3", ("utils.py", "            num = (1 - 2 * s) * (mxu + fpart) * (1 << e)\n            denom = mxu", "            num = (mxu + fpart) * (1 << e)\n            denom = mxu"))
 M("C13-f2mpf-exponent", "C13", "R13.4", ("utils.py", "        exp_ = exponent - prec\n", "        exp_ = exponent - prec + 1\n"))
 N("C13-neutral-f2f-order", "C13", ("utils.py", "            num = (1 - 2 * s) * (mxu + fpart) * (1 << e)\n            denom = mxu", "            num = (1 << e) * (mxu + fpart) * (1 - 2 * s)\n            denom = mxu"))
+
+# ----------------------------------------------------------------------------- C02 (interval abstract interpretation)
+_AL = "algorithms.py"
+M("C02-asinh-threshold", "C02", "R2.2", (_AL, "        safe_max_limit = ctx.sqrt(ctx.constant(\"largest\", x))\n", "        safe_max_limit = ctx.constant(\"largest\", x)\n"))
+M("C02-asinh-wrong-branch", "C02", "R2.2", (_AL, "        r = ctx.select(ax >= safe_max_limit, a0, a1)\n", "        r = ctx.select(ax >= safe_max_limit, a1, a0)\n"))
+M("C02-asinh-sign-dropped", "C02", "R2.2", (_AL, "    return ctx(ctx.sign(x) * r)\n", "    return ctx(r)\n"))
+M("C02-asinh-log-constant", "C02", "R2.2", (_AL, "    a0 = ctx.log(two) + ctx.log(ax)\n    a1 = ctx.log1p(ax + ax2 / (one + z))", "    a0 = ctx.log(one) + ctx.log(ax)\n    a1 = ctx.log1p(ax + ax2 / (one + z))"))
+M("C02-acosh-threshold", "C02", "R2.2", (_AL, "        safe_max_limit = ctx.constant(\"largest\", x) / 2\n", "        safe_max_limit = ctx.constant(\"largest\", x)\n"))
+M("C02-asin-arg-order", "C02", "R2.2", (_AL, "    ta = ctx.atan2(x, one + sq)\n", "    ta = ctx.atan2(one + sq, x)\n"))
+M("C02-asin-domain", "C02", "R2.1", (_AL, "    sq = ctx.sqrt((one - x) * (one + x))\n    ta = ctx.atan2(x, one + sq)", "    sq = ctx.sqrt(abs((one - x) * (one + x)))\n    ta = ctx.atan2(x, one + sq)"))
+M("C02-hypot-guard-dropped", "C02", "R2.2", (_AL, "    return ctx(ctx.select(mx == mn, h1, h2))\n", "    return ctx(h2)\n"))
+M("C02-hypot-underflow-branch", "C02", "R2.2", (_AL, "    h2 = ctx.select(ctx.And(sqa == 1, r > 0), mx + mx * r / 2, mx * sqa)", "    h2 = ctx.select(ctx.And(sqa == 1, r > 0), mx + mx * r * 2, mx * mx * sqa)"))
+M("C02-hypot-sqrt-two", "C02", "R2.2", (_AL, "        sqrt_two = ctx.sqrt(ctx.constant(2, mx))\n", "        sqrt_two = ctx.constant(2, mx)\n"))
+N("C02-neutral-asin-commute", "C02", (_AL, "    sq = ctx.sqrt((one - x) * (one + x))\n    ta = ctx.atan2(x, one + sq)", "    sq = ctx.sqrt((one + x) * (one - x))\n    ta = ctx.atan2(x, sq + one)"))
+N("C02-neutral-asinh-select", "C02", (_AL, "        r = ctx.select(ax >= safe_max_limit, a0, a1)\n", "        r = ctx.select(ax < safe_max_limit, a1, a0)\n"))
+N("C02-neutral-hypot-half", "C02", (_AL, "    h2 = ctx.select(ctx.And(sqa == 1, r > 0), mx + mx * r / 2, mx * sqa)", "    h2 = ctx.select(ctx.And(sqa == 1, r > 0), mx + mx * r * 0.5, mx * sqa)"))
+M("C11-seed-nmant", "C11", "R11.1", (FPA, "def _is_power_of_two_parameters(dtype):\n    fi = numpy.finfo(dtype)\n    p = -fi.negep\n", "def _is_power_of_two_parameters(dtype):\n    fi = numpy.finfo(dtype)\n    p = fi.nmant\n"))
+N("C11-neutral-nmant-plus-one", "C11", (FPA, "def _is_power_of_two_parameters(dtype):\n    fi = numpy.finfo(dtype)\n    p = -fi.negep\n", "def _is_power_of_two_parameters(dtype):\n    fi = numpy.finfo(dtype)\n    p = fi.nmant + 1\n"))
+N("C11-neutral-next-reordered", "C11", (FPA, "return ctx.select(x > 0, x / c, x * c) if up else ctx.select(x < 0, x / c, x * c)", "return ctx.select(x < 0, x * c, x / c) if up else ctx.select(x > 0, x * c, x / c)"))
